@@ -92,5 +92,14 @@ TEXT = {
    text="Lean theorems (only hypothesis: P prime): for all representable points ((0,0) = identity, else reduced on-curve coordinates) Add, Double return the group sum/double of Mathlib's elliptic-curve group, never panic, results reduced and canonical, identity returned exactly as (0,0); "
         "ScalarMult / ScalarBaseMult = (big-endian value of the bytes) • point for EVERY byte string incl. 0, >= n, leading zeros, and every base incl. the identity; IsOnCurve x y iff y^2 = x^3 + 7 in ZMod P; ModInverse never fails on a nonzero z.",
    note="Trusted: Lean kernel; Mathlib (elliptic-curve group law); primality of P (hypothesis); math/big modelled on Int; extractor+harness. Both copies of secp256k1.go are required to be byte-identical by the tie. F6 was found by this check and fixed in /repo."),
+ "C13": dict(ref="DESIGN.md §5 C13",
+   technique="Lean 4 proof over a labelled transition system of one Mine call (main, watcher, W workers, environment cancel; nondeterministic batch outcomes): inductive invariant, ranking function, for every W >= 1 and every interleaving; "
+             "tie = regenerated synchronisation skeleton / closure captures / atomic-access lists of both worker.go files; correspondence = replay of recorded real executions (build-tag hooks) through the model; supporting run under the Go race detector",
+   text="partial (runtime): Lean theorems for every worker count W >= 1, every schedule, every cancellation instant and every batch outcome: Mine returns ErrCancelled only if the context was cancelled and a nonce only if a worker's lane test produced it; "
+        "a finder's send never blocks (buffer W) and never hits a closed channel; no reachable non-final state is deadlocked; once the done flag is set or the join is passed every step decreases a measure <= 5W+9 (bounded drain, at most one more batch per worker); "
+        "with the context cancelled the watcher's path to setting the flag stays enabled until taken; at return all workers have exited, the WaitGroup is 0 and the watcher has exited or its single remaining step is enabled. "
+        "Data-race freedom is carried as: every variable shared between goroutines is only read, or is an atomic / channel / WaitGroup (regenerated capture and access lists), plus a race-detector run; real-time bounds and scheduler fairness are outside the model.",
+   note="Trusted: Lean kernel; the transition system as a faithful abstraction of worker.go (tied by regenerated skeletons and validated by replaying every recorded execution, every event required to be an enabled model step); Go memory model, scheduler fairness; "
+        "the race detector and goroutine accounting in the supporting run; extractor+harness+hooks (pkg/pow/hook_verif.go, build tag verif)."),
 }
 PENDING = {}
